@@ -117,6 +117,28 @@ CLAIMED["C06"] = (
     "DESIGN.md §4 C06",
 )
 
+CLAIMED["C02"] = (
+    "PARTIAL (the full statement is false of today's printer: 11 recorded findings, one root cause for most). Every expression refurb "
+    "can be handed is compared with Python's grammar, given in Lean as an inductive derivation relation (one constructor per PEG "
+    "production, precedence levels 0-17, slices, star items, argument kinds, chained comparisons, f-strings with conversion and spec): "
+    "a precedence-aware reference printer is proved to print text that derives the user's tree, at any depth (pp_faithful); refurb's "
+    "_stringify (modelled case by case over 25 node kinds incl. get_fstring_parts, escaping, slice_expr_to_slice_call) is proved to "
+    "print that same text whenever every operand binds at least as tightly as its position requires (stringify_faithful_partial) and "
+    "is refuted otherwise by two-trees-one-text witnesses (stringify_refuted and five more). Filling a message template with fragments "
+    "that derive at each hole's level gives a parsable, faithful whole (fragment_in_hole, template_faithful); the hole levels of 52 "
+    "templates of 29 checks are tabulated and checked. Each run compares the model byte for byte with _stringify/stringify on ~30k "
+    "(300k thorough) hand-built and parsed nodes and with the messages of 13 checks, the grammar with CPython's parser, and unifies "
+    "every quoted fragment of thousands of real diagnostics with the source at the reported span.",
+    COMMON_NOTE
+    + "Modelled, not verified: unambiguity of the grammar is not proved (rests on CPython's parser being a function; ppRef_injective and "
+    "faithful_refuted are conditional on it); statement forms, the lexical round trip of escapes and whole-tree placeholders are "
+    "modelled and compared, not proved; the tree converters and the unifier in harness/props/c02.py are trusted; schematic messages "
+    "are judged relative to the unmodified idiom; canonical dotted names are tolerated; templates of checks outside the table are "
+    "covered by the oracle only.",
+    "Lean 4 proof (inductive grammar, printer soundness by mutual structural induction, guarded refinement, template substitution theorem) + byte-level correspondence + CPython-parser differential + span-unification oracle",
+    "DESIGN.md §4 C02",
+)
+
 CLAIMED["C04"] = (
     "Theorems for syntax trees of any depth and width: if every child edge that occurs is followed with multiplicity 1 the visit "
     "sequence equals the node list (walk_eq_nodes; also necessary: once_requires_one; a dropped field hides its subtree, a doubled "
